@@ -30,8 +30,8 @@ Definition g_FastBounds_cube (v_start v_end : qpt) (v_xmin v_xmax v_ymin v_ymax 
   let v_cp2 := (d3, d4) in
   let v_end := (d5, d6) in
   let v_xmin := (Qmin v_xmin (Qmin (fst v_cp1) (Qmin (fst v_cp2) (fst v_end)))) in
-  let v_xmax := (Qmax v_xmax (Qmax (fst v_cp1) (Qmin (fst v_cp2) (fst v_end)))) in
+  let v_xmax := (Qmax v_xmax (Qmax (fst v_cp1) (Qmax (fst v_cp2) (fst v_end)))) in
   let v_ymin := (Qmin v_ymin (Qmin (snd v_cp1) (Qmin (snd v_cp2) (snd v_end)))) in
-  let v_ymax := (Qmax v_ymax (Qmax (snd v_cp1) (Qmin (snd v_cp2) (snd v_end)))) in
+  let v_ymax := (Qmax v_ymax (Qmax (snd v_cp1) (Qmax (snd v_cp2) (snd v_end)))) in
   (v_end, (v_xmin, v_xmax, v_ymin, v_ymax)).
 
